@@ -7,6 +7,7 @@ from typing import Dict, List, Optional, Set, Tuple
 
 from ..core import AnalysisError, RuleSpec
 from ..pymodel import call_name
+from .. import astq
 from ..specs import use_stmt
 
 EXPLANATION = (
@@ -26,68 +27,131 @@ EXPLANATION = (
 ASSUMPTIONS = ["names are [A-Za-z][A-Za-z0-9_]*"]
 
 
+def _group_index(py, e: ast.AST, fn: ast.AST, match_vars: Set[str]) -> Optional[int]:
+    """which capturing group of the rename match an expression carries (through .lower()/.strip(), local names and
+    tuple-unpacking of <match>.groups())"""
+    while isinstance(e, ast.Call) and isinstance(e.func, ast.Attribute) and e.func.attr in ("lower", "strip", "casefold") and not e.args:
+        e = e.func.value
+    if isinstance(e, ast.Call) and isinstance(e.func, ast.Attribute) and e.func.attr == "group" and \
+            isinstance(e.func.value, ast.Name) and e.func.value.id in match_vars and e.args and isinstance(e.args[0], ast.Constant):
+        return e.args[0].value
+    if isinstance(e, ast.Subscript) and isinstance(e.value, ast.Name) and e.value.id in match_vars and isinstance(e.slice, ast.Constant):
+        return e.slice.value
+    if isinstance(e, ast.Name):
+        for n in ast.walk(fn):
+            if isinstance(n, ast.Assign):
+                for t in n.targets:
+                    if isinstance(t, ast.Name) and t.id == e.id:
+                        g = _group_index(py, n.value, fn, match_vars)
+                        if g is not None:
+                            return g
+                    if isinstance(t, (ast.Tuple, ast.List)):
+                        names = [x.id if isinstance(x, ast.Name) else None for x in t.elts]
+                        if e.id in names:
+                            v = n.value
+                            # (f(x) for x in m.groups()) / map(f, m.groups()) / m.groups()
+                            src = " ".join(ast.unparse(x) for x in ast.walk(v) if isinstance(x, ast.Call))
+                            if any(f"{mv}.groups()" in src for mv in match_vars):
+                                return names.index(e.id) + 1
+                            if isinstance(v, (ast.Tuple, ast.List)) and len(v.elts) == len(names):
+                                return _group_index(py, v.elts[names.index(e.id)], fn, match_vars)
+    return None
+
+
 def r1_rename_map(ctx, rep):
     py = ctx.py
     fn = py.func("FortranModule.get_used_entities")
-    inner = [n for n in ast.walk(fn) if isinstance(n, ast.FunctionDef) and n.name == "used_objects"]
-    if not inner:
-        raise AnalysisError("get_used_entities: used_objects not found")
-    uo = inner[0]
-    stores = [n for n in ast.walk(uo) if isinstance(n, ast.Assign) and isinstance(n.targets[0], ast.Subscript)
-              and ast.unparse(n.targets[0].value) == "result"]
-    if not stores:
-        raise AnalysisError("used_objects: no store into result")
-    for k, st in enumerate(stores):
-        key = ast.unparse(st.targets[0].slice)
-        ok = "used_names" in key
-        # which branch?
-        conds = []
-        p = st
-        while p is not uo:
-            c = p
-            p = py.parents[p]
-            if isinstance(p, ast.If):
-                conds.append(("" if c in p.body else "not ") + ast.unparse(p.test))
-        rep.ob(f"used_objects store #{k} [{' & '.join(reversed(conds))}]", ok,
-               (f"key `{key}` goes through the rename map" if ok else
-                f"`result[{key}] = obj` ignores the rename map on the path [{' & '.join(reversed(conds))}]: "
+    inner = [n for n in ast.walk(fn) if isinstance(n, ast.FunctionDef) and n is not fn]
+    # the helper that builds one filtered table: the nested function whose result is keyed per entity
+    helpers = [h for h in inner if any(isinstance(x, ast.DictComp) for x in ast.walk(h)) or any(
+        isinstance(x, ast.Assign) and isinstance(x.targets[0], ast.Subscript) for x in ast.walk(h))]
+    if not helpers:
+        raise AnalysisError("get_used_entities: no nested helper builds the imported-name table")
+    uo = helpers[0]
+    # the rename map: the dict that is filled from RENAME_RE matches
+    match_vars = {t for n in ast.walk(fn) for t in ([n.target.id] if isinstance(n, ast.NamedExpr) else
+                                                   [x.id for x in n.targets if isinstance(x, ast.Name)] if isinstance(n, ast.Assign) else [])
+                  if "RENAME_RE" in ast.unparse(n.value)}
+    if not match_vars:
+        raise AnalysisError("get_used_entities: RENAME_RE match variable not found")
+    outer_nodes = [n for n in ast.walk(fn) if not any(n is x for x in ast.walk(uo))]
+    maps = [n for n in outer_nodes if isinstance(n, ast.Assign) and isinstance(n.targets[0], ast.Subscript)
+            and isinstance(n.targets[0].value, ast.Name)]
+    map_names = {ast.unparse(m.targets[0].value) for m in maps}
+    if len(map_names) != 1:
+        raise AnalysisError(f"get_used_entities: rename map stores not recognised ({sorted(map_names)})")
+    V = map_names.pop()
+    # every key under which an imported entity is stored goes through the map
+    keys: List[Tuple[ast.AST, ast.AST, str]] = []
+    par = astq.parents_of(uo)
+    for n in ast.walk(uo):
+        if isinstance(n, ast.DictComp):
+            conds = [ast.unparse(t) if pol else f"not {ast.unparse(t)}" for t, pol in astq.conditions_of(n, par, stop=uo)]
+            guards = astq.preceding_guards(uo.body, n)
+            conds += [f"not ({ast.unparse(g.test)})" for g in guards]
+            keys.append((n.key, n, " & ".join(conds)))
+        if isinstance(n, ast.Assign) and isinstance(n.targets[0], ast.Subscript) and isinstance(n.targets[0].value, ast.Name) \
+                and n.targets[0].value.id != V:
+            conds = [ast.unparse(t) if pol else f"not {ast.unparse(t)}" for t, pol in astq.conditions_of(n, par, stop=uo)]
+            keys.append((n.targets[0].slice, n, " & ".join(reversed(conds))))
+    if not keys:
+        raise AnalysisError(f"{uo.name}: no keyed store of an imported entity found")
+    for k, (key, node, conds) in enumerate(keys):
+        ok = any(isinstance(x, ast.Name) and x.id == V for x in ast.walk(key))
+        rep.ob(f"used_objects store #{k} [{conds}]", ok,
+               (f"key `{ast.unparse(key)}` goes through the rename map" if ok else
+                f"the key `{ast.unparse(key)}` ignores the rename map on the path [{conds}]: "
                 f"`use m, local => remote` (without ONLY) keeps the entity under its remote name and never "
-                f"defines the local one"), py.nloc(st))
-    # the map is shared by the four filter passes (procs, absints, types, vars): read-only in used_objects
-    muts = [c for c in py.walk_calls(uo) if isinstance(c.func, ast.Attribute) and ast.unparse(c.func.value) == "used_names"
+                f"defines the local one"), py.nloc(node))
+    # the map is shared by the four filter passes (procs, absints, types, vars): read-only in the helper
+    muts = [c for c in py.walk_calls(uo) if isinstance(c.func, ast.Attribute) and ast.unparse(c.func.value) == V
             and c.func.attr in ("pop", "popitem", "clear", "update", "setdefault")]
-    muts += [n for n in ast.walk(uo) if isinstance(n, (ast.Delete,)) and "used_names" in ast.unparse(n)]
+    muts += [n for n in ast.walk(uo) if isinstance(n, (ast.Delete,)) and V in ast.unparse(n)]
     muts += [n for n in ast.walk(uo) if isinstance(n, ast.Subscript) and isinstance(n.ctx, ast.Store)
-             and ast.unparse(n.value) == "used_names"]
+             and ast.unparse(n.value) == V]
     rep.ob("the rename map is not consumed while filtering one entity kind", not muts,
-           "used_names is only read inside used_objects" if not muts else
+           f"{V} is only read inside {uo.name}" if not muts else
            f"`{ast.unparse(muts[0])[:50]}` removes names from the map shared by the four kind passes: a name that denotes "
            f"both a type and its same-named constructor interface is imported for the first kind only", py.nloc(muts[0]) if muts else py.nloc(uo))
-    # early return only for an empty tail
-    first = [s for s in fn.body if isinstance(s, ast.If)][0]
-    ok = ast.unparse(first.test) == "len(use_specs.strip()) == 0" and "return (self.pub_procs, self.pub_absints, self.pub_types, self.pub_vars)" in ast.unparse(first)
-    rep.ob("plain USE imports the four public tables", ok, "", py.nloc(first))
-    # the map: both sides lower-cased
-    maps = [n for n in ast.walk(fn) if isinstance(n, ast.Assign) and isinstance(n.targets[0], ast.Subscript)
-            and ast.unparse(n.targets[0].value) == "used_names"]
-    if len(maps) < 2:
-        raise AnalysisError("get_used_entities: used_names construction not found")
+    # early return only for an empty tail: the four public tables
+    ev = astq.trace(fn)
+    first = next((e for e in ev if e.kind == "return"), None)
+    spec = fn.args.args[1].arg if len(fn.args.args) > 1 else "use_specs"
+    ok = first is not None and first.value is not None and \
+        [ast.unparse(x) for x in getattr(first.value, "elts", [])] == ["self.pub_procs", "self.pub_absints", "self.pub_types", "self.pub_vars"] \
+        and any(spec in c for c in first.cond_texts()) and not any(e.kind == "assign" and e.target == V for e in ev[:ev.index(first)])
+    rep.ob("plain USE imports the four public tables", ok, "", py.nloc(first.node) if first else py.nloc(fn))
+    # the map: both sides lower-cased; direction local => remote
+    if len(maps) < 1:
+        raise AnalysisError("get_used_entities: rename map construction not found")
     for m in maps:
-        k, v = ast.unparse(m.targets[0].slice), ast.unparse(m.value)
-        ok = k.endswith(".lower()") and v.endswith(".lower()")
-        rep.ob(f"used_names[{k}] = {v}", ok,
+        kx = astq.expand_locals(m.targets[0].slice, fn)
+        vx = astq.expand_locals(m.value, fn)
+        lower = lambda xs: any(isinstance(c, ast.Call) and isinstance(c.func, ast.Attribute) and c.func.attr in ("lower", "casefold")  # noqa: E731
+                               for x in xs for c in ast.walk(x))
+        ok = lower(kx) and lower(vx)
+        rep.ob(f"used_names[{ast.unparse(m.targets[0].slice)}] = {ast.unparse(m.value)}", ok,
                "remote and local name are both lower-cased (lookups are case-insensitive)" if ok else
-               f"`used_names[{k}] = {v}`: one side keeps the source spelling, so `use m, only: Local => remote` "
+               f"`{ast.unparse(m)}`: one side keeps the source spelling, so `use m, only: Local => remote` "
                f"stores the entity under a key no (lower-cased) lookup can reach", py.nloc(m))
-    # rename direction: used_names[remote] = local
-    ren = [m for m in maps if "match.group" in ast.unparse(m)]
-    ok = bool(ren) and "match.group(2)" in ast.unparse(ren[0].targets[0].slice) and "match.group(1)" in ast.unparse(ren[0].value)
-    rep.ob("rename direction local => remote", ok, "used_names[remote] = local (RENAME_RE groups 2 -> 1)", py.nloc(ren[0]) if ren else py.nloc(fn))
-    ok = "only = bool(self.ONLY_RE.match(use_specs))" in ast.unparse(fn) and "self.ONLY_RE.sub('', use_specs)" in ast.unparse(fn)
+    dirs = [(_group_index(py, m.targets[0].slice, fn, match_vars), _group_index(py, m.value, fn, match_vars)) for m in maps]
+    dirs = [d for d in dirs if d[0] is not None or d[1] is not None]
+    if not dirs:
+        raise AnalysisError("get_used_entities: could not relate the rename map to the groups of RENAME_RE")
+    ok = all(d == (2, 1) for d in dirs)
+    rep.ob("rename direction local => remote", ok, "map[remote] = local (RENAME_RE groups 2 -> 1)" if ok else
+           f"the rename map is filled as map[group {dirs[0][0]}] = group {dirs[0][1]}: local and remote name are swapped", py.nloc(maps[0]))
+    only_asg = [e for e in ev if e.kind == "assign" and e.value is not None and "ONLY_RE" in e.text(e.value)]
+    flag = [e for e in only_asg if "match" in e.text(e.value) or "search" in e.text(e.value)]
+    strip = [e for e in only_asg if ".sub(" in e.text(e.value)]
+    ok = bool(flag) and bool(strip)
     rep.ob("ONLY detection", ok, "", py.nloc(fn))
-    # name lookup lower-cases
-    ok = "name = name.lower()" in ast.unparse(uo)
-    rep.ob("exported names compared lower-case", ok, "", py.nloc(uo))
+    # exported names are compared lower-case: every test of a table name against the map lower-cases it
+    tests = [n for n in ast.walk(uo) if isinstance(n, ast.Compare) and isinstance(n.ops[0], (ast.In, ast.NotIn))
+             and ast.unparse(n.comparators[0]) == V]
+    tests_ok = all(any(isinstance(c, ast.Call) and isinstance(c.func, ast.Attribute) and c.func.attr in ("lower", "casefold")
+                       for x in astq.expand_locals(t.left, uo) for c in ast.walk(x)) for t in tests)
+    rep.ob("exported names compared lower-case", bool(tests) and tests_ok, "", py.nloc(uo))
 
 
 def r2_public_only(ctx, rep):
@@ -116,89 +180,157 @@ def r2_public_only(ctx, rep):
         raise AnalysisError(f"only {n} writes to pub_* found")
     # predicates
     cl = py.func("FortranModule._cleanup")
-    t = ast.unparse(cl)
-    ok = "return item.permission in ['public', 'protected']" in t
-    rep.ob("definition-site filter: permission in {public, protected}", ok, "", py.nloc(cl))
+    fps = [h for h in ast.walk(cl) if isinstance(h, ast.FunctionDef) and h.name == "filter_public"]
+    perm_sets = []
+    for h in ([cl] + fps):
+        for c in ast.walk(h):
+            if isinstance(c, ast.Compare) and isinstance(c.ops[0], ast.In) and ast.unparse(c.left).endswith(".permission"):
+                v = py.eval_const(c.comparators[0], py.module_env("sourceform"))
+                if isinstance(v, (list, tuple, set)):
+                    perm_sets.append(set(v))
+    ok = perm_sets and all(p == {"public", "protected"} for p in perm_sets)
+    rep.ob("definition-site filter: permission in {public, protected}", bool(ok), "" if ok else f"permission sets {perm_sets}", py.nloc(cl))
     co = py.func("FortranCodeUnit.correlate")
-    sp = [n for n in ast.walk(co) if isinstance(n, ast.FunctionDef) and n.name == "should_be_public"]
     fp = [n for n in ast.walk(co) if isinstance(n, ast.FunctionDef) and n.name == "filter_public"]
-    if not sp or not fp:
-        raise AnalysisError("correlate: should_be_public/filter_public not found")
-    t = ast.unparse(sp[0])
-    ok = "return self.permission == 'public' or name in self.public_list" in t
-    rep.ob("re-export filter: unit default public or name in public_list", ok, "", py.nloc(sp[0]))
+    if not fp:
+        raise AnalysisError("correlate: filter_public not found")
+    # the predicate applied to each table entry (a nested helper or an inline test)
     comp = [n for n in ast.walk(fp[0]) if isinstance(n, ast.DictComp)]
-    ok = False
+    ok = ok_pred = False
     if comp:
         c = comp[0]
         gen = c.generators[0]
-        if isinstance(gen.target, ast.Tuple) and ast.unparse(gen.iter) == "collection.items()" and gen.ifs:
+        if isinstance(gen.target, ast.Tuple) and gen.ifs and isinstance(gen.target.elts[0], ast.Name):
             keyvar = gen.target.elts[0].id
-            arg = ast.unparse(gen.ifs[0])
-            ok = arg == f"should_be_public({keyvar})" and ast.unparse(c.key) == keyvar
+            test = gen.ifs[0]
+            pred_src = [test]
+            arg_is_key = None
+            if isinstance(test, ast.Call) and isinstance(test.func, ast.Name):
+                hs = [h for h in ast.walk(co) if isinstance(h, ast.FunctionDef) and h.name == test.func.id]
+                if hs:
+                    pred_src = list(astq.returns(hs[0]))
+                    arg_is_key = bool(test.args) and isinstance(test.args[0], ast.Name) and test.args[0].id == keyvar
+                    pname = hs[0].args.args[0].arg
+                    # the parameter itself (not an attribute of it) must be what is looked up in public_list
+                    in_list = [x for r in pred_src for x in ast.walk(r) if isinstance(x, ast.Compare) and isinstance(x.ops[0], ast.In)
+                               and ast.unparse(x.comparators[0]).endswith("public_list")]
+                    arg_is_key = arg_is_key and all(isinstance(x.left, ast.Name) and x.left.id == pname for x in in_list) and bool(in_list)
+            else:
+                in_list = [x for x in ast.walk(test) if isinstance(x, ast.Compare) and isinstance(x.ops[0], ast.In)
+                           and ast.unparse(x.comparators[0]).endswith("public_list")]
+                arg_is_key = bool(in_list) and all(isinstance(x.left, ast.Name) and x.left.id == keyvar for x in in_list)
+            ptxt = " ".join(ast.unparse(r) for r in pred_src)
+            ok_pred = "self.permission == 'public'" in ptxt and "public_list" in ptxt and " or " in ptxt
+            ok = bool(arg_is_key) and isinstance(c.key, ast.Name) and c.key.id == keyvar
+    rep.ob("re-export filter: unit default public or name in public_list", ok_pred, "", py.nloc(fp[0]))
     rep.ob("re-export filter is keyed by the local (possibly renamed) name", ok,
            "the predicate receives the table key, i.e. the name under which this module knows the entity" if ok else
            "the re-export predicate no longer tests the local name (the table key): an entity imported as "
            "`local => remote` and listed `public :: local` is not re-exported", py.nloc(fp[0]))
-    # used_objects reads only pub_* attributes
+    # the table helper reads only pub_* attributes
     gu = py.func("FortranModule.get_used_entities")
-    args = [c.args[0].value for c in py.walk_calls(gu) if call_name(c) == "used_objects" and c.args
-            and isinstance(c.args[0], ast.Constant)]
-    ok = sorted(args) == ["pub_absints", "pub_procs", "pub_types", "pub_vars"]
+    args = sorted({c.value for n in ast.walk(gu) if isinstance(n, ast.Call) for c in n.args
+                   if isinstance(c, ast.Constant) and isinstance(c.value, str) and c.value.startswith(("pub_", "all_"))})
+    ok = args == ["pub_absints", "pub_procs", "pub_types", "pub_vars"]
     rep.ob("used_objects reads exactly the four pub_* tables", ok, f"tables read: {args}", py.nloc(gu))
     # pub_* updates happen only for modules
-    t = ast.unparse(co)
-    ok = re.search(r"if isinstance\(self, FortranModule\):\s+self\.pub_procs\.update", t) is not None
+    cev = astq.trace(co)
+    ups = [e for e in cev if e.kind == "call" and re.fullmatch(r"self\.pub_\w+\.update", call_name(e.node))]
+    ok = bool(ups) and all(any("isinstance(self, FortranModule)" in c and not c.startswith("not") for c in e.cond_texts()) for e in ups)
     rep.ob("only modules re-export", ok, "", py.nloc(co))
     # all_* tables receive the unfiltered imports (visible inside the unit)
-    ok = all(f"self.{a}.update({b})" in t for a, b in (("all_procs", "procs"), ("all_absinterfaces", "absints"),
-                                                      ("all_types", "types"), ("all_vars", "variables")))
+    alls = {call_name(e.node).split(".")[1]: e for e in cev if e.kind == "call" and re.fullmatch(r"self\.all_\w+\.update", call_name(e.node))
+            and e.node.args and isinstance(e.node.args[0], ast.Name)}
+    ok = {"all_procs", "all_absinterfaces", "all_types", "all_vars"} <= set(alls)
     rep.ob("imports are visible inside the importing unit", ok, "", py.nloc(co))
 
 
 def r3_dependency_order(ctx, rep):
     py = ctx.py
     fn = py.func("Project.correlate")
-    t = ast.unparse(fn)
-    ok = "ranklist = toposort.toposort_flatten(deplist)" in t
-    rep.ob("rank list comes from toposort_flatten(deplist)", ok, "", py.nloc(fn))
-    loops = [n for n in ast.walk(fn) if isinstance(n, ast.For) and "container.correlate(self)" in ast.unparse(n)]
-    ok = bool(loops) and ast.unparse(loops[0].iter) == "ranklist"
-    rep.ob("correlate loop iterates the rank list", ok,
-           "modules are correlated in dependency order" if ok else
-           "container.correlate is not driven by the toposorted list: results depend on file order", py.nloc(loops[0]) if loops else py.nloc(fn))
-    ok = re.search(r"deplist = \{module: set\(module\.deplist\) for module in chain\(self\.modules, self\.submodules\)\}", t) is not None
+    loops = [n for n in ast.walk(fn) if isinstance(n, ast.For) and any(
+        isinstance(c, ast.Call) and isinstance(c.func, ast.Attribute) and c.func.attr == "correlate"
+        and isinstance(c.func.value, ast.Name) and c.func.value.id == getattr(n.target, "id", None) for c in ast.walk(n))]
+    if not loops:
+        raise AnalysisError("Project.correlate: the loop calling <container>.correlate(self) was not found")
+    loop = loops[0]
+    es = astq.ElemSources(py, "fortran_project")
+    src_exprs = astq.expand_locals(loop.iter, fn, depth=6)
+    # also what is appended/extended to the iterated list
+    names = {n.id for e in src_exprs for n in ast.walk(e) if isinstance(n, ast.Name)}
+    topo = [c for e in src_exprs for c in ast.walk(e) if isinstance(c, ast.Call) and call_name(c).split(".")[-1] in ("toposort_flatten", "toposort")]
+    ok = bool(topo)
+    rep.ob("rank list comes from toposort_flatten(deplist)", ok, "", py.nloc(topo[0]) if topo else py.nloc(fn))
+    # order: the toposorted modules come first in the iterated sequence
+    first_ok = ok
+    if ok:
+        t0 = topo[0]
+        par = py.parents.get(t0)
+        if isinstance(par, ast.Call) and call_name(par) in ("chain", "itertools.chain"):
+            first_ok = par.args and par.args[0] is t0
+    rep.ob("correlate loop iterates the rank list", ok and bool(first_ok),
+           "modules are correlated in dependency order" if ok and first_ok else
+           "container.correlate is not driven by the toposorted list: results depend on file order", py.nloc(loop))
+    if topo and topo[0].args:
+        dm = astq.expand_locals(topo[0].args[0], fn, depth=5)
+        txt = " ".join(ast.unparse(e) for e in dm)
+        ok = "self.modules" in txt and "self.submodules" in txt and ".deplist" in txt
+    else:
+        ok = False
     rep.ob("dependency map covers modules and submodules", ok, "", py.nloc(fn))
-    ok = "mod.deplist = [mod.parent_submodule or mod.ancestor_module] + filter_modules(mod)" in t
+    sub = [v for n in ast.walk(fn) if isinstance(n, ast.Assign) and any(isinstance(t, ast.Attribute) and t.attr == "deplist" for t in n.targets)
+           for v in [n.value] if "parent_submodule" in ast.unparse(v)]
+    ok = bool(sub) and "ancestor_module" in ast.unparse(sub[0])
     rep.ob("submodule depends on its parent", ok, "", py.nloc(fn))
-    # get_deps coverage vs find_used_modules
-    gd = [n for n in ast.walk(fn) if isinstance(n, ast.FunctionDef) and n.name == "get_deps"]
+    # the recursive collector of USE targets
+    gd = [n for n in ast.walk(fn) if isinstance(n, ast.FunctionDef) and n is not fn and any(
+        isinstance(c, ast.Call) and isinstance(c.func, ast.Name) and c.func.id == n.name for c in ast.walk(n))
+        and ".uses" in ast.unparse(n)]
     if not gd:
-        raise AnalysisError("Project.correlate: get_deps not found")
-    g = ast.unparse(gd[0])
-    covers_routines = "item.routines" in g
-    covers_intr = "intr.procedure" in g and "interfaceprocs" in g and \
-        re.search(r"chain\(item\.routines, interfaceprocs\)", g) is not None
-    rep.ob("get_deps recurses into contained procedures", covers_routines, "", py.nloc(gd[0]))
+        raise AnalysisError("Project.correlate: the recursive collector of USE targets (get_deps) was not found")
+    g = gd[0]
+    rec_calls = [c for c in ast.walk(g) if isinstance(c, ast.Call) and isinstance(c.func, ast.Name) and c.func.id == g.name]
+    gtxt = ast.unparse(g)
+    # what the recursion ranges over
+    rec_src = set()
+    ges = astq.ElemSources(py, "fortran_project")
+    for c in rec_calls:
+        if c.args:
+            rec_src |= ges.scalar(c.args[0], g, {}, 0, set(), at=c)
+    covers_routines = "attr:routines" in rec_src
+    covers_intr = "attr:procedure" in rec_src
+    rep.ob("get_deps recurses into contained procedures", covers_routines, "", py.nloc(g))
     rep.ob("get_deps recurses into interface bodies", covers_intr,
            "USE statements inside interface bodies order the modules too" if covers_intr else
            "get_deps no longer follows interface bodies although find_used_modules resolves their USE statements: "
-           "a module that references another only from an interface body is correlated before it", py.nloc(gd[0]))
-    ok = "uselist = [m[0] for m in item.uses]" in g and "uselist.extend(get_deps(procedure))" in g
-    rep.ob("get_deps collects USE targets recursively", ok, "", py.nloc(gd[0]))
-    fm = [n for n in ast.walk(fn) if isinstance(n, ast.FunctionDef) and n.name == "filter_modules"]
-    ok = bool(fm) and "type(dep) is FortranModule" in ast.unparse(fm[0])
-    rep.ob("only resolved project modules become edges", ok, "", py.nloc(fm[0]) if fm else py.nloc(fn))
+           "a module that references another only from an interface body is correlated before it", py.nloc(g))
+    ok = ".uses" in gtxt and bool(rec_calls) and any(isinstance(c, ast.Call) and isinstance(c.func, ast.Attribute) and
+                                                     c.func.attr in ("extend", "update", "append") for c in ast.walk(g)) or \
+        any(isinstance(x, ast.BinOp) and isinstance(x.op, ast.Add) for x in ast.walk(g))
+    rep.ob("get_deps collects USE targets recursively", ok, "", py.nloc(g))
+    filt = [c for c in ast.walk(fn) if isinstance(c, ast.Compare) and "FortranModule" in ast.unparse(c) and "type(" in ast.unparse(c)]
+    filt += [c for c in ast.walk(fn) if isinstance(c, ast.Call) and call_name(c) == "isinstance" and "FortranModule" in ast.unparse(c)
+             and not ast.unparse(c).startswith("isinstance(mod.")]
+    rep.ob("only resolved project modules become edges", bool(filt), "", py.nloc(filt[0]) if filt else py.nloc(fn))
     # find_used_modules precedes deplist computation
     fu_line = min([c.lineno for c in py.walk_calls(fn) if call_name(c) == "find_used_modules"] or [0])
     dl_line = min([n.lineno for n in ast.walk(fn) if isinstance(n, ast.Assign) and "deplist" in ast.unparse(n.targets[0])] or [0])
     ok = 0 < fu_line < dl_line
     rep.ob("names are resolved to module objects before dependencies are computed", ok, "", py.nloc(fn))
     fum = py.func("fortran_project.find_used_modules")
-    t = ast.unparse(fum)
-    ok = "for procedure in entity.routines" in t and "interface.procedure" in t and "interface.routines" in t
-    rep.ob("find_used_modules visits procedures and interface bodies", ok, "", py.nloc(fum))
-    ent = [n for n in ast.walk(fn) if isinstance(n, ast.For) and "find_used_modules(entity" in ast.unparse(n)]
+    fes = astq.ElemSources(py, "fortran_project")
+    rsrc = set()
+    for c in ast.walk(fum):
+        if isinstance(c, ast.Call) and isinstance(c.func, ast.Name) and c.func.id == fum.name and c.args:
+            a0 = c.args[0]
+            rsrc |= fes.scalar(a0, fum, {}, 0, set(), at=c) if isinstance(a0, ast.Name) else {f"attr:{a0.attr}"} if isinstance(a0, ast.Attribute) else {"?"}
+    routines_of = [ast.unparse(n.iter) for n in ast.walk(fum) if isinstance(n, ast.For) and ast.unparse(n.iter).endswith(".routines")]
+    ok = "attr:routines" in rsrc and "attr:procedure" in rsrc and any(x != f"{fum.args.args[0].arg}.routines" for x in routines_of)
+    rep.ob("find_used_modules visits procedures and interface bodies", ok,
+           "" if ok else f"recursion covers {sorted(rsrc)}; routine loops over {routines_of}: USE statements of some interface bodies are "
+           f"never resolved", py.nloc(fum))
+    ent = [n for n in ast.walk(fn) if isinstance(n, ast.For) and any(
+        isinstance(c, ast.Call) and call_name(c) == "find_used_modules" for c in ast.walk(n))]
     ok = bool(ent) and all(x in ast.unparse(ent[0].iter) for x in ("self.modules", "self.procedures", "self.programs", "self.submodules", "self.blockdata"))
     rep.ob("every kind of program unit has its USE statements resolved", ok, "", py.nloc(ent[0]) if ent else py.nloc(fn))
 
